@@ -362,7 +362,7 @@ theorem scalar_good (L : Leaves) (c : Ctx) (e : Env) (U : TypeId → Prop) (env 
   simp only [hname, bind, Except.bind]
   unfold scalarOk at hok
   cases d with
-  | null => simp [kindOk] at hk
+  | null => rw [valueJson] at hok; repeat (split at hok <;> try cases hok)
   | var v => simp [kindOk] at hk
   | «enum» v => simp [kindOk, TypeId.asEnum?] at hk
   | list ds => rw [valueJson] at hok; repeat (split at hok <;> try cases hok)
@@ -582,6 +582,25 @@ theorem oneOfVariants_single (c : Ctx) (lit : Value → TypeId → List Qual →
       · right
         exact ⟨by simp [hpne, h1], by simp [h2]⟩
 
+/-- a position that must not be `null` never holds `null` (`C04S.valid_nonnull` for the coercing validity) -/
+theorem validC_nonnull {L : Leaves} {s : Schema} {id : TypeId} {b : Bool} {t : GTy} {j : Json}
+    (h : ValidC L s id b t j) : (b = true ∨ isNN t = true) → j.isNull = false := by
+  induction h with
+  | null hn => intro h; rcases h with h | h <;> simp_all
+  | some hn _ ih => intro h; rcases h with h | h <;> simp_all
+  | bang _ ih => intro _; exact ih (.inl rfl)
+  | list _ _ => intro _; rfl
+  | @wrap id t j _ hnn _ _ => intro _; cases j <;> first | rfl | exact absurd rfl hnn
+  | @scalar k n nm j' _ hok =>
+    intro _
+    cases j' <;> first | rfl | (rw [scalarOk_null] at hok; cases hok)
+  | «enum» _ _ => intro _; rfl
+  | object _ _ _ _ _ _ _ => intro _; rfl
+  | oneOf _ _ _ _ _ => intro _; rfl
+
+theorem valueIsNull_of_json {d : Value} (h : (valueJson d).isNull = false) : valueIsNull d = false := by
+  cases d <;> first | rfl | (rw [valueJson] at h; cases h)
+
 /-- **`literal_core`** — see the header -/
 theorem literal_core (L : Leaves) (c : Ctx) (e : Env) (U : TypeId → Prop) (env : InputEnv c e U)
     (hnorm : c.o.normalization = .none)
@@ -597,15 +616,23 @@ theorem literal_core (L : Leaves) (c : Ctx) (e : Env) (U : TypeId → Prop) (env
           (canon c.s c.o.skipNone id t (coerce c.s id t j)).isNull = false) := by
   induction h with
   | @null id t hn =>
-    intro _ _ d hd hk
-    cases d <;> simp [valueJson] at hd <;> simp [kindOk] at hk
+    intro _ _ d hd hk fuel _
+    refine ⟨fun _ => ?_, fun hb => by cases hb⟩
+    have hd' : d = .null := by
+      cases d <;> simp [valueJson] at hd
+      · rfl
+      · simp [kindOk] at hk
+    subst hd'
+    refine ⟨.none, .unit, valueToLiteral_null c fuel id _ (by rw [strip_of_not_nn hn]), ?_⟩
+    rw [coerce_null, canon_null, R, if_neg (by simp), rustOf_opt _ hn]
+    exact good_none e _
   | @some id t j hn hv ih =>
     intro hU hw d hd hk fuel hf
     refine ⟨fun _ => ?_, fun hb => by cases hb⟩
     obtain ⟨lit, x, hlit, hg, hnull⟩ := (ih hU hw d hd hk fuel hf).2 rfl hn
+    have hdn : valueIsNull d = false := valueIsNull_of_json (hd ▸ validC_nonnull hv (.inl rfl))
     refine ⟨.some lit, .some x, ?_, ?_⟩
-    · unfold valueToLiteral
-      rw [strip_of_not_nn hn]
+    · rw [valueToLiteral_of_not_null c fuel d id _ (by rw [hdn, Bool.and_false]), strip_of_not_nn hn]
       simp only [hlit]
       rfl
     · have : R c id false t = .opt (R c id true t) := by simp [R, rustOf_opt _ hn]
@@ -619,7 +646,7 @@ theorem literal_core (L : Leaves) (c : Ctx) (e : Env) (U : TypeId → Prop) (env
     refine ⟨fun hb => ?_, fun _ hb => by simp [isNN] at hb⟩
     subst hb
     refine ⟨lit, x, ?_, ?_⟩
-    · unfold valueToLiteral
+    · rw [valueToLiteral_of_not_null c fuel d id _ (by simp [GTy.quals, stripRequired])]
       simp only [GTy.quals, stripRequired, hlit]
       rfl
     · have : R c id false (.nonNull t) = R c id true t := by simp [R, rustOf]
@@ -664,8 +691,10 @@ theorem literal_core (L : Leaves) (c : Ctx) (e : Env) (U : TypeId → Prop) (env
       exact hna _ hd.symm
     obtain ⟨f, rfl⟩ : ∃ f, fuel = f + 1 := ⟨fuel - 1, by omega⟩
     obtain ⟨lit, x, hlit, hg⟩ := (ih hU hw' d hd hk (f+1) hf).1 rfl
-    unfold valueToLiteral at hlit
-    rw [literalInner_single c f d id _ hnl] at hlit
+    have hdn : valueIsNull d = false := by
+      cases d <;> first | rfl | (rw [valueJson] at hd; exact absurd hd.symm hnn)
+    rw [valueToLiteral_of_not_null c (f+1) d id _ (by rw [hdn, Bool.and_false]),
+      literalInner_single c f d id _ hnl] at hlit
     obtain ⟨s0, hs0⟩ : ∃ s0, scalarToLiteral c f d id = .ok s0 := by
       cases h : scalarToLiteral c f d id with
       | ok s0 => exact ⟨s0, rfl⟩
